@@ -387,6 +387,15 @@ func runStructured(c *fw.Ctx, width int, thorough bool) {
 			}
 		}
 	}
+	// (b') every run length in the mid range, alone and after one odd value
+	midMax := 2100
+	if thorough {
+		midMax = 9000
+	}
+	for l := 1; l <= midMax; l++ {
+		emit([][2]int{{max, l}})
+		emit([][2]int{{0, 1}, {max, l}, {0, 1}})
+	}
 	// (c) the 63-group boundary: prefixes of 61..65 non-repeating groups
 	// (488..520 alternating values) with every residue 0..7, then runs
 	for groups := 61; groups <= 65; groups++ {
@@ -512,6 +521,13 @@ func decoderLong(c *fw.Ctx, width int) {
 	for _, r := range rleLens {
 		plans = append(plans, []refpq.RunSpec{{RLE: true, N: r}})
 		plans = append(plans, []refpq.RunSpec{{RLE: true, N: r}, {RLE: true, N: r}})
+	}
+	// every run length / group count in the mid range
+	for r := 1; r <= 2100; r++ {
+		plans = append(plans, []refpq.RunSpec{{N: 1}, {RLE: true, N: r}})
+	}
+	for g := 1; g <= 300; g++ {
+		plans = append(plans, []refpq.RunSpec{{N: g}, {RLE: true, N: 3}})
 	}
 	for pi, plan := range plans {
 		if !c.Mine() {
